@@ -57,7 +57,10 @@ RowCode(r) ==
   ELSE IF \E k \in 1..Len(r.ids) : em[r.ids[k]].fut = 1 THEN "future_garbage_counted"
   ELSE IF r.c # Len(r.ids) THEN "count_mismatch"
   ELSE IF r.s # SumV(r.ids) THEN "sum_mismatch"
-  ELSE IF idled THEN ""            \* after an idle flush: which rows are late / owed is no longer known to the trace
+  \* after an idle flush which rows are late / owed is no longer known to the trace (the watermark is the wall clock); what stays
+  \* known: an interval is reported once when ALLOWEDLATENESS = 0 (a row of a flushed interval that arrives afterwards is late,
+  \* however high its timestamp is compared with the earlier ones)
+  ELSE IF idled THEN (IF cfg.al = 0 /\ WinSeen(r.ws) THEN "interval_reported_twice" ELSE "")
   ELSE IF maxTs < r.we + cfg.moo /\ ~IdleJustified(r) THEN "fired_before_watermark"
   ELSE LET prev == PrevOf(r.ws, r.g) IN
        IF prev = {} THEN
